@@ -255,6 +255,9 @@ def run(repo, rep):
     c2 = calls_in(f2, "encode_weights")
     kw = {k.arg: norm(k.value) for k in c2[0].keywords} if c2 else {}
     rep.check(kw.get("dilation_xy") == "kernel.dilation", "C07-f", f"{WC}:encode_weight_and_scale_tensor", "dilation_xy = kernel.dilation (PointXY: x, y)", str(kw.get("dilation_xy")))
+    from .shared import pair_unpack_lint
+
+    pair_unpack_lint(repo, rep, "C07-f", ["weight_compressor", "operation", "architecture_allocator", "high_level_command_to_npu_op", "register_command_stream_util"])
     rep.floor("C07-f", 3)
 
     # ---------------------------------------------------------------- e': output buffer bound, zero-run cursor
